@@ -57,6 +57,10 @@ type Scenario struct {
 	StableClients int `json:"stableClients"`
 	// Variant (bigread mode): which buffer-handoff schedule, see bigVariants.
 	Variant int `json:"variant"`
+	// stablesched mode (stablesched.go): client programs, the order in which clients take steps, uint64 API or []byte API
+	Clients [][]stableCall `json:"clients"`
+	Order   []int          `json:"order"`
+	U64     bool           `json:"u64"`
 }
 
 var out *bufio.Writer
@@ -522,6 +526,8 @@ func bigRead(sc *Scenario) {
 	emit(map[string]any{"ev": "schedule", "len": 0, "passed": 0, "aborted": false, "reason": "", "solo": "", "soloHeld": 0})
 }
 
+func runtimeStack(buf []byte) int { return runtime.Stack(buf, true) }
+
 func runScenario(sc *Scenario) {
 	if sc.Mode == "segstress" {
 		segStress(sc)
@@ -529,6 +535,10 @@ func runScenario(sc *Scenario) {
 	}
 	if sc.Mode == "bigread" {
 		bigRead(sc)
+		return
+	}
+	if sc.Mode == "stablesched" {
+		stableSched(sc)
 		return
 	}
 	emit(map[string]any{"ev": "reset", "id": sc.ID, "mode": sc.Mode, "withCloser": sc.WithCloser, "prog": sc.Prog})
